@@ -41,7 +41,7 @@ ASSUMPTIONS = [
     "the known finding single-shot-peek is matched counterfactually: same bytes accepted under whole delivery and under the same schedule with only its first chunk enlarged",
 ]
 EXPECTED_PROBES = ["neutral-name-sniffed", "stdin-read", "first-chunk-inside-magic", "one-byte-delivery", "two-writers-open", "garbage-refused", "avro-cell", "independent-decompressor-ok",
-                   "scheme-stdin", "foreign-producer", "closed-without-flush"]  # fmt: skip
+                   "scheme-stdin", "foreign-producer", "closed-without-flush", "two-readers-alive"]  # fmt: skip
 
 CODECS = ["none", "gz", "bz2", "lz4", "zst"]
 EXT = {"none": "", "gz": ".gz", "bz2": ".bz2", "lz4": ".lz4", "zst": ".zst"}
@@ -477,6 +477,42 @@ def execute(plan, keep_log=False):
                 detail = "%s via %s (%s delivery, first raw read %s bytes): %s at stage %s after %d records; written %d" % (
                     container + "/" + c, naming, deliv["kind"], info.get("first_chunk", "all"), outcome, stage, len(got), len(want))  # fmt: skip
             add(_viol(inv, detail, info))
+        # ---- two readers alive at the same time, consumed in lock-step ------------------------------------
+        if len(files) > 1 and not (plain_close and not (written["w0"] and written["w1"])):
+            from flow.record import RecordReader as _RR
+
+            try:
+                paths = {}
+                for wid in ("w0", "w1"):
+                    d2, c2 = files[wid]
+                    # one by its telling name, the other by a neutral one
+                    pth = "/simfs/r/pair-%s.%s%s" % (wid, stem, EXT[c2]) if wid == "w0" else "/simfs/r/pair-%s.bin" % wid
+                    w.fs.put(pth, d2)
+                    paths[wid] = pth
+                ra, rb = _RR(pre + paths["w0"]), _RR(pre + paths["w1"])
+                w.keep += [ra, rb]
+                ga, gb = [], []
+                ia, ib = iter(ra), iter(rb)
+                done_a = done_b = False
+                while not (done_a and done_b):
+                    if not done_a:
+                        x = next(ia, None)
+                        done_a = x is None
+                        if x is not None:
+                            ga.append(obs_record(x))
+                    if not done_b:
+                        y = next(ib, None)
+                        done_b = y is None
+                        if y is not None:
+                            gb.append(obs_record(y))
+                evals += 1
+                w.probe("two-readers-alive")
+                if ga != written["w0"] or gb != written["w1"]:
+                    add(_viol("C11.naming-variance", "two readers open at the same time and consumed alternately: %d/%d and %d/%d records come back intact (codecs %s, %s)" % (
+                        len(ga), len(written["w0"]), len(gb), len(written["w1"]), files["w0"][1], files["w1"][1]), {"two_readers": True}))  # fmt: skip
+            except Exception as e:  # noqa: BLE001
+                add(_viol("C11.naming-variance", "two readers open at the same time and consumed alternately raised %s: %s (codecs %s, %s)" % (
+                    type(e).__name__, short(str(e), 100), files["w0"][1], files["w1"][1]), {"two_readers": True}))  # fmt: skip
         # ---- clause 3: garbage -----------------------------------------------------------------------
         for gi, g in enumerate(plan["garbage"]):
             gdata = make_garbage(g, plain0 if container == "stream" and plain0 else b"\x00" * 40)
